@@ -2,6 +2,7 @@ import Lean.Data.Json
 import Emboss.Model.Fmt
 import Emboss.Spec.Fmt
 import Emboss.Spec.FmtEquivC
+import Emboss.Spec.FmtRetok
 import Driver.Util
 open Emboss.Fmt Driver
 
@@ -22,6 +23,10 @@ open Emboss.Fmt Driver
   `countdiffers`.
 * `GLUE` / `GLUECHECK` — the terminal pairs some handler prints with nothing in between
   (`gluedPairs`), and whether all of them are in the audited list (`gluedOK`).
+* `RETOK <indent_width> <tree>` — `retokTree` (Spec/FmtRetok.lean): the hypotheses of
+  `C11_retokenize_partial` evaluated row by row with the tokenizer model, and the token
+  sequence they imply.  Answer: `ok <leaves>` (`,`-separated `<hex symbol>:<hex text>`, `-` for
+  none) or `hyp-fails`.
 * `HRUN <production index> <indent_width> <hex JSON array of values>` — run the *handler* the
   registry resolves that production to on the given argument values (round 3: per-handler
   probes).  Values: `{"s": str}`, `{"l": [str…]}`, `{"n": 0}` (Python `[]`), `{"r": [row…]}`,
@@ -254,6 +259,15 @@ def handle (line : String) : String :=
       | some (.str s) => "ok " ++ tohex (String.ofList s)
       | some _ => "not-text"
       | none => "none"
+    | _, _ => "bad-op"
+  | "RETOK" :: iw :: items =>
+    match iw.toNat?, parseItems items [] none with
+    | some iw, some t =>
+      match Emboss.FmtTok.retokTree iw t with
+      | some E =>
+        if E.isEmpty then "ok -"
+        else "ok " ++ ",".intercalate (E.map (fun l => tohex l.1 ++ ":" ++ tohex (String.ofList l.2)))
+      | none => "hyp-fails"
     | _, _ => "bad-op"
   | ["HRUN", p, iw, hex] =>
     match p.toNat?, iw.toNat?, parseArgs hex with
